@@ -235,6 +235,9 @@ func (e *Env) Exec(o Op) (pre []string, res Result, post []string) {
 			e.failAt = int(pU64(f["k"]))
 		}
 		err, panicked := safely(func() error { return e.k.BeginBlocker(e.ctx) })
+		if e.failAt >= 0 && e.bankCall > e.failAt {
+			post = append(post, "FAULT fired=1")
+		}
 		e.failAt = -1
 		switch {
 		case panicked:
